@@ -23,29 +23,32 @@ TextValues(p) == {"2020 Jane Doe", "2019-2021 ACME, Inc. <https://acme.example>"
 ValuesFor(tag, p) == IF tag = "lic" THEN LicValues(p) ELSE TextValues(p)
 Tags == {"lic", "con", "cop", "snip", "word", "wordc", "sym", "wordsym"}
 
-CaseOf(s, form, frame, tag, v, ex, indent, trail) ==
+CaseOf0(s, form, frame, tag, v, ex, indent, trail) ==
    LET p == PrefixOf(s, form)
    IN  [style |-> s.name, form |-> form, indent |-> indent, p |-> p,
         gapL |-> IF p = "" THEN "" ELSE IF form = "block" /\ s.iam # "" THEN s.iam ELSE " ",
         tag |-> tag, value |-> v, trail |-> IF OwnTerms(s, form) # <<>> \/ ex # <<>> \/ frame THEN trail \o " " ELSE trail,
-        frame |-> frame, gapR |-> " ", terms |-> OwnTerms(s, form) \o ex, blanks |-> IF trail = "" THEN "" ELSE " "]
+        frame |-> frame, gapR |-> " ", terms |-> OwnTerms(s, form) \o ex, tgap |-> "", blanks |-> IF trail = "" THEN "" ELSE " "]
+CaseOfG(s, form, frame, tag, v, ex, indent, trail, tgap) == [CaseOf0(s, form, frame, tag, v, ex, indent, trail) EXCEPT !.tgap = tgap]
+CaseOf(s, form, frame, tag, v, ex, indent, trail) == CaseOf0(s, form, frame, tag, v, ex, indent, trail)
 AllCases == {CaseOf(s, form, frame, tag, v, ex, "", "") :
                s \in Styles, form \in {"single", "inline", "block", "bare"}, frame \in BOOLEAN, tag \in Tags,
                v \in {"MIT", "2020 Jane Doe"}, ex \in {<<>>}}        \* (shape only; the real enumeration is Next)
 
 Init == c = [style |-> "", form |-> "bare", indent |-> "", p |-> "", gapL |-> "", tag |-> "lic", value |-> "MIT", trail |-> "",
-             frame |-> FALSE, gapR |-> " ", terms |-> <<>>, blanks |-> ""] /\ phase = "start" /\ step = 0
+             frame |-> FALSE, gapR |-> " ", terms |-> <<>>, tgap |-> "", blanks |-> ""] /\ phase = "start" /\ step = 0
 Next == /\ phase = "start" /\ phase' = "case" /\ UNCHANGED step
         /\ \E s \in Styles : \E form \in Forms(s) : \E tag \in Tags : \E ex \in {<<>>, <<"\">">>, <<"-->">>} :
              \E frame \in (IF PrefixOf(s, form) = "" THEN {FALSE} ELSE BOOLEAN) :
                \E v \in ValuesFor(tag, PrefixOf(s, form)) :
-                  c' = CaseOf(s, form, frame, tag, v, ex, "", "")
+                 \E g \in (IF Len(OwnTerms(s, form) \o ex) >= 2 THEN {"", " "} ELSE {""}) :      \* a comment nested in another: "*/ -->"
+                  c' = CaseOfG(s, form, frame, tag, v, ex, "", "", g)
 Spec == Init /\ [][Next]_vars
 SampleNext == /\ phase' = "case" /\ step' = step + 1
               /\ \E s \in {RandomElement(Styles)} : \E form \in {RandomElement(Forms(s))} : \E tag \in {RandomElement(Tags)} :
                    \E frame \in {IF PrefixOf(s, form) = "" THEN FALSE ELSE RandomElement(BOOLEAN)} :     \* (bound once each)
-                      c' = CaseOf(s, form, frame, tag, RandomElement(ValuesFor(tag, PrefixOf(s, form))), RandomElement(Extra),
-                                  RandomElement({"", "  ", "\t"}), RandomElement({"", " ", "  "}))
+                      c' = CaseOfG(s, form, frame, tag, RandomElement(ValuesFor(tag, PrefixOf(s, form))), RandomElement(Extra),
+                                   RandomElement({"", "  ", "\t"}), RandomElement({"", " ", "  "}), RandomElement({"", " ", "  "}))
 SampleSpec == Init /\ [][SampleNext]_vars
 SampleBound == TLCGet("level") <= SampleN
 
